@@ -17,6 +17,7 @@ type divMonitor struct {
 	calls   atomic.Int64
 	created atomic.Bool
 	faulted atomic.Bool
+	applied atomic.Bool // a result was corrupted, whether or not it counts as a fault by the property's condition
 
 	mu            sync.Mutex
 	allowed       map[uint]bool
@@ -130,6 +131,7 @@ func (m *divMonitor) divideFull(p []uint, q uint, d map[uint]uint, v1NilDist boo
 		m.inner(p, q, d)
 		return
 	}
+	m.applied.Store(true)
 	before := map[uint]uint{}
 	var totalBefore uint
 	for _, v := range d {
